@@ -154,7 +154,9 @@ func (statsFamily) Exec(c *hc.Case) {
 	var tracker *responsetimeslo.Tracker
 	m := &circuit.Manager{DefaultCircuitProperties: []circuit.CommandPropertiesConstructor{sf.CreateConfig, func(name string) circuit.Config {
 		cfg := slo.CommandProperties(name)
-		tracker = cfg.Metrics.Run[0].(*responsetimeslo.Tracker)
+		if name == "stats-circuit" {
+			tracker = cfg.Metrics.Run[0].(*responsetimeslo.Tracker)
+		}
 		return cfg
 	}}}
 	base := circuit.Config{}
@@ -165,6 +167,10 @@ func (statsFamily) Exec(c *hc.Case) {
 	base.Metrics.Run = []circuit.RunMetrics{statsRec{clk, &evs}}
 	base.Metrics.Fallback = []circuit.FallbackMetrics{statsFbRec{&evs}}
 	cir := m.MustCreateCircuit("stats-circuit", base)
+	// two more circuits in the same manager that never see traffic: every record of the stream must be about
+	// the circuit it names (their records are all zeros and closed)
+	m.MustCreateCircuit("a-idle")
+	m.MustCreateCircuit("z-idle")
 	live := func(mod func(*circuit.Config)) {
 		cfg := circuit.Config{}
 		cfg.General.TimeKeeper.Now = clk
@@ -263,7 +269,26 @@ func (statsFamily) Exec(c *hc.Case) {
 			em, ee := decodeFloat(ep)
 			pass, fail := tracker.MeetsSLOCount.Get(), tracker.FailsSLOCount.Get()
 			// one real event-stream record
-			rec := fetchStreamRecord(srv.URL)
+			recs, bad := fetchStreamRecords(srv.URL, 9)
+			rec := recs["stats-circuit"]
+			if rec == nil {
+				rec = map[string]interface{}{}
+			}
+			for _, b := range bad {
+				c.Viol = append(c.Viol, hc.Violation{Clause: "each hystrix event-stream record is computed from those same numbers together with the circuit's name and current IsOpen value", Detail: "a served record is not a JSON object about one of the manager's circuits: " + b, AtOp: i})
+			}
+			for _, idle := range []string{"a-idle", "z-idle"} {
+				if r := recs[idle]; r != nil {
+					for _, k := range []string{"requestCount", "errorCount", "rollingCountSuccess", "rollingCountFailure", "countSuccess", "countFailure", "countTimeout", "rollingCountShortCircuited", "countShortCircuited"} {
+						if v, _ := r[k].(float64); v != 0 {
+							c.Viol = append(c.Viol, hc.Violation{Clause: "each hystrix event-stream record is computed from those same numbers together with the circuit's name and current IsOpen value", Detail: fmt.Sprintf("record of the idle circuit %s has %s = %v", idle, k, v), AtOp: i})
+						}
+					}
+					if o, _ := r["isCircuitBreakerOpen"].(bool); o {
+						c.Viol = append(c.Viol, hc.Violation{Clause: "each hystrix event-stream record is computed from those same numbers together with the circuit's name and current IsOpen value", Detail: "record of the idle circuit " + idle + " says open", AtOp: i})
+					}
+				}
+			}
 			num := func(k string) int64 {
 				v, _ := rec[k].(float64)
 				return int64(v)
@@ -356,6 +381,42 @@ func (statsFamily) Exec(c *hc.Case) {
 	for t := range tags {
 		c.Tags = append(c.Tags, t)
 	}
+}
+
+// fetchStreamRecords reads up to n records of the stream: the last record seen per circuit name, and the
+// data lines that are not a JSON object naming a known circuit.
+func fetchStreamRecords(url string, n int) (map[string]map[string]interface{}, []string) {
+	out := map[string]map[string]interface{}{}
+	var bad []string
+	req, _ := http.NewRequest("GET", url, nil)
+	ctx, cancel := context.WithTimeout(context.Background(), 5*time.Second)
+	defer cancel()
+	resp, err := http.DefaultClient.Do(req.WithContext(ctx))
+	if err != nil {
+		return out, bad
+	}
+	defer resp.Body.Close()
+	rd := bufio.NewReader(resp.Body)
+	seen := 0
+	for seen < n {
+		line, err := rd.ReadString('\n')
+		if strings.HasPrefix(line, "data:") {
+			seen++
+			payload := strings.TrimPrefix(strings.TrimSpace(line), "data:")
+			var rec map[string]interface{}
+			if json.Unmarshal([]byte(payload), &rec) != nil {
+				bad = append(bad, payload)
+			} else if name, _ := rec["name"].(string); name != "stats-circuit" && name != "a-idle" && name != "z-idle" && name != "cfg-circuit" {
+				bad = append(bad, payload)
+			} else {
+				out[name] = rec
+			}
+		}
+		if err != nil {
+			break
+		}
+	}
+	return out, bad
 }
 
 func fetchStreamRecord(url string) map[string]interface{} {
